@@ -3574,6 +3574,9 @@ class ExpectileGAM(GAM):
         if not self._is_fitted:
             self.fit(X, y, weights=weights)
 
+        y = check_y(y, self.link, self.distribution, verbose=self.verbose)
+        check_X_y(make_2d(X, verbose=False), y)
+
         # do binary search
         max_ = 1.0
         min_ = 0.0
